@@ -67,6 +67,44 @@ def sharded(chk):
         chk.violation('sharded:workers-left-acquired', f'[{name}]', ctx)
 
 
+def failed_shard(chk):
+  """One shard fails with a non-retriable error: fewer shard states arrive than there are shards, so the final merge must
+  report that instead of delivering an aggregate over the shards that did finish (Sched.tla: MergeStrict)."""
+  import time as real_time
+  for workers, shards, n, bad in ((2, 4, 8, 7), (2, 2, 6, 0), (3, 3, 9, 4)):
+    name = f'sharded workers={workers} shards={shards} n={n}, element {bad} raises'
+    with dist.cluster(workers) as c:
+      rq = queue.SimpleQueue()
+      outs = []
+
+      def run():
+        for x in c.mods.orchestrate.sharded_pipelines_as_iterator(c.pool, lib.define_pipeline, n, result_queue=rq, num_shards=shards,
+                                                                  fail_on=(bad,), retry_failures=False):
+          outs.append(x)
+        return True
+
+      status, val = dist.run_with_deadline(run, 30)
+      chk.replayed()
+      ctx = dict(kind='dist-failed-shard', scenario=name)
+      if status == 'ok':
+        chk.violation('sharded:failed-shard:error-swallowed', f'[{name}] iteration ended normally with {sorted(outs)}', ctx)
+        continue
+      if status == 'hung':
+        chk.violation('sharded:failed-shard:hung', f'[{name}] no end within the deadline', ctx)
+        continue
+      results = []
+      t0 = real_time.time()
+      while real_time.time() - t0 < 0.6:
+        try:
+          results.append(rq.get_nowait())
+        except queue.Empty:
+          real_time.sleep(0.02)
+      if results:
+        got = [_agg_list(r) if hasattr(r, 'agg_result') else r for r in results]
+        chk.violation('sharded:failed-shard:partial-aggregate-delivered',
+                      f'[{name}] the iterator raised {type(val).__name__}, yet result_queue received {got} merged from the shards that finished', ctx)
+
+
 def two_aggregating_stages(chk):
   """A chain of two named stages that both aggregate, sharded over a worker pool."""
   for workers, shards, n in ((2, 2, 4), (1, 3, 5), (2, 1, 3)):
@@ -237,6 +275,7 @@ def body(chk):
   interleaved(chk)
   interleaved_remote(chk)
   strict_merge(chk)
+  failed_shard(chk)
   chk.add_samples([dict(scenario='sharded workers=2 shards=3 n=7 batch=2')])
   chk.assumptions += ['in-process transport; real threads and asyncio loops (schedules sampled, not enumerated)',
                       ]
